@@ -235,6 +235,20 @@ func secretClosures(p *eng.Prog) []*ssa.Function {
 		if sl, ok := sig.Results().At(0).Type().Underlying().(*types.Slice); !ok || !types.Identical(sl.Elem(), types.Typ[types.Byte]) {
 			continue
 		}
+		// a thin literal `func() []byte { return s.helper(name) }`: the body is the helper
+		body := f
+		var calls []*ssa.Call
+		eng.Instrs(f, func(in ssa.Instruction) {
+			if call, ok := in.(*ssa.Call); ok {
+				calls = append(calls, call)
+			}
+		})
+		if len(calls) == 1 && eng.IsHelper(f, eng.Callee(&calls[0].Call)) {
+			if rets := eng.Returns(f); len(rets) == 1 && eng.Origin(eng.RetVals(rets[0])[0]) == ssa.Value(calls[0]) {
+				body = eng.Callee(&calls[0].Call)
+			}
+		}
+		f = body
 		touches := false
 		for _, a := range storeAccesses1(f) {
 			_ = a
